@@ -448,7 +448,7 @@ func b2bSub(r *ev.Run, name string, depth int) {
 				r.Violate(ev.Violation{Signature: sig, Sub: name, Message: msg, Case: c})
 			}
 			if (ix*5+int(evals))%9973 == 5 {
-				r.Sample(map[string]any{"sub": name, "case": c, "outcome": oc})
+				sample(r, name, map[string]any{"sub": name, "case": c, "outcome": oc})
 			}
 		}
 		st.merge(evals, nontrivial, nil)
@@ -564,7 +564,7 @@ func acB2BSub(r *ev.Run, name string, depth int) {
 				r.Violate(ev.Violation{Signature: sig, Sub: name, Message: msg, Case: c})
 			}
 			if (ix*4+int(evals))%2003 == 5 {
-				r.Sample(map[string]any{"sub": name, "case": c, "outcome": oc})
+				sample(r, name, map[string]any{"sub": name, "case": c, "outcome": oc})
 			}
 		}
 		st.merge(evals, nontrivial, nil)
